@@ -186,6 +186,8 @@ class ProtocolContext:
                 self.set_state(IsInIdle, result=self._state._echo_pkt)
 
             elif isinstance(self._state, WantEcho | WantRply):
+                if self._expiry_timer is not None:  # set by an earlier effect_state()
+                    self._expiry_timer.cancel()
                 self._expiry_timer = self._loop.create_task(expire_state_on_timeout())
 
         if self._expiry_timer is not None:
